@@ -127,11 +127,35 @@ func c07Reshare(nt *vfbNet, prev *c07Epoch, members []int, thr int, tRound uint6
 	return ep
 }
 
-func c07Run(run *vfRun, c c07Case) { c07RunMode(run, c, "c07") }
+// c07Halt carries a chain-halt observation out of one attempt at a case.
+type c07Halt struct {
+	hold   bool // do not report: hand the observation back to the caller
+	detail string
+}
+
+// A halt is a bounded-progress verdict, and the bound is counted in steps of the fake clock: whether the nodes'
+// goroutines got to run between two steps is up to the scheduler of the box. A case that halts is therefore run a
+// second time, identically: halting again is a violation; a halt that does not come back is reported as
+// inconclusive together with what the first attempt saw (never as held).
+func c07Run(run *vfRun, c c07Case) {
+	first := &c07Halt{hold: true}
+	c07RunAttempt(run, c, "c07", first)
+	if first.detail == "" {
+		return
+	}
+	run.Count("halts_seen_on_first_attempt", 1)
+	second := &c07Halt{}
+	c07RunAttempt(run, c, "c07", second)
+	if second.detail == "" {
+		run.Inconclusive(fmt.Sprintf("case %d: the chain halted after the transition on one attempt and not on an identical second one (scheduling-dependent, not decided): %s", c.Index, first.detail))
+	}
+}
+
+func c07RunMode(run *vfRun, c c07Case, mode string) { c07RunAttempt(run, c, mode, &c07Halt{}) }
 
 // c07RunMode: mode "c07" arms the continuity / progress / previous-group oracles; mode "c04" runs the same
 // transition workload with only the emission-timing oracle of C04 armed ("around resharing").
-func c07RunMode(run *vfRun, c c07Case, mode string) {
+func c07RunAttempt(run *vfRun, c c07Case, mode string, halt *c07Halt) {
 	sch, _ := crypto.SchemeFromName(c.Scheme)
 	universe := c.N1 + 3
 	cfg := vfbConfig{Scheme: sch, N: c.N1, Thr: c.T1, Period: time.Duration(c.PeriodS) * time.Second, Catchup: time.Duration(c.CatchupS) * time.Second,
@@ -312,6 +336,29 @@ func c07RunMode(run *vfRun, c c07Case, mode string) {
 				if atomic.AddInt64(&dn, 1) < 60 {
 					run.Note(fmt.Sprintf("DEBUG n%d %s %s %v", n.pos, level, msg, kv))
 				}
+			}
+		}
+	}
+	// per-node tail of the handlers' own log lines, only ever printed next to a chain-halt report
+	var ringMu sync.Mutex
+	rings := map[int][]string{}
+	if mode == "c07" && os.Getenv("VF_DEBUG") == "" {
+		for _, n := range nt.nodes {
+			n := n
+			n.logger.sink = func(level, msg string, kv []interface{}) {
+				if level == "debug" && !strings.Contains(fmt.Sprint(kv...), "beacon_loop") && !strings.Contains(msg, "broadcast") {
+					return
+				}
+				line := fmt.Sprintf("%d %s %s %v", n.clk.Now().Unix(), level, msg, kv)
+				if len(line) > 260 {
+					line = line[:260]
+				}
+				ringMu.Lock()
+				rings[n.pos] = append(rings[n.pos], line)
+				if len(rings[n.pos]) > 80 {
+					rings[n.pos] = rings[n.pos][40:]
+				}
+				ringMu.Unlock()
 			}
 		}
 	}
@@ -515,8 +562,27 @@ func c07RunMode(run *vfRun, c c07Case, mode string) {
 				time.Sleep(30 * time.Millisecond)
 			}
 			if who := behind(); len(who) > 0 && mode == "c07" {
-				run.Violation(fmt.Sprintf("C07/chain-halts-after-transition/%s/%s", c.Shape, c.Outage),
-					fmt.Sprintf("transition at round %d, %d of %d new-group members running (threshold %d); %d logical seconds later still behind: %v", tRound, len(live), len(next.members), next.group.Threshold, 2*B, who), info)
+				diag := ""
+				for _, n := range live {
+					h := nt.Head(n)
+					sw := n.handler != nil && n.handler.crypto.GetGroup().TransitionTime == next.group.TransitionTime
+					govMu.Lock()
+					sp := append([]string(nil), seenPartials[[2]uint64{uint64(n.pos), h + 1}]...)
+					govMu.Unlock()
+					ringMu.Lock()
+					tail := append([]string(nil), rings[n.pos]...)
+					ringMu.Unlock()
+					if len(tail) > 30 {
+						tail = tail[len(tail)-30:]
+					}
+					diag += fmt.Sprintf(" || n%d: lead=%d vault-switched=%v partials-handed-over-for-round-%d=%v log-tail=%q", n.pos, lead, sw, h+1, sp, tail)
+				}
+				detail := fmt.Sprintf("transition at round %d, %d of %d new-group members running (threshold %d); %d logical seconds later still behind: %v%s", tRound, len(live), len(next.members), next.group.Threshold, 2*B, who, diag)
+				halt.detail = detail
+				if halt.hold {
+					return
+				}
+				run.Violation(fmt.Sprintf("C07/chain-halts-after-transition/%s/%s", c.Shape, c.Outage), detail, info)
 				return
 			}
 		}
